@@ -29,3 +29,5 @@ Definition demo2_pages : list page :=
     pgm 318 672 [a false (-1) false; a false 672 false];
     {| pg_off := 358; pg_len := 40; pg_serial := 7; pg_gran := 700; pg_bos := false; pg_eos := true; pg_cont := false; pg_pkts := [a false 700 true] |} ].
 Definition demo2 : vfs := open_file demo2_pages [(7, 64, 512)] 0.
+Definition demo2_nth (k : nat) : page :=
+  nth k demo2_pages {| pg_off := 0; pg_len := 0; pg_serial := 0; pg_gran := 0; pg_bos := false; pg_eos := false; pg_cont := false; pg_pkts := [] |}.
